@@ -155,7 +155,15 @@ pub fn run(ctx: &mut Ctx, dom: &str, a: &[Arg]) {
             ctx.ln("pstr", crate::dom_mbi::s_str(&g, r));
         }
         "magic" => {
-            ctx.ln("magic", format!("mbi={} hdr={}", multiboot2::MAGIC, multiboot2_header::MAGIC));
+            ctx.ln(
+                "magic",
+                format!(
+                    "mbi={} hdr={} header_tag_types={}",
+                    multiboot2::MAGIC,
+                    multiboot2_header::MAGIC,
+                    multiboot2_header::HeaderTagType::count()
+                ),
+            );
         }
         _ => unreachable!(),
     }
